@@ -1,0 +1,91 @@
+//! Verification hooks, compiled only with the cargo feature `verif`.
+//!
+//! Nothing in here changes behaviour unless a test harness installs a callback:
+//! - `write_point(site)` is called immediately before every RocksDB write in `storage.rs`;
+//! - `rng()` replaces `thread_rng()` for FlyClient sampling when a seed is installed
+//!   (so that sampled requests are reproducible) and counts the draws.
+
+use std::cell::RefCell;
+use std::sync::{Arc, Mutex};
+
+use rand::RngCore;
+
+pub(crate) type WriteHook = Arc<dyn Fn(&'static str) + Send + Sync>;
+
+static WRITE_HOOK: Mutex<Option<WriteHook>> = Mutex::new(None);
+
+/// Installs (or removes) the callback which is invoked before every storage write.
+pub(crate) fn set_write_hook(hook: Option<WriteHook>) {
+    *WRITE_HOOK.lock().unwrap_or_else(|e| e.into_inner()) = hook;
+}
+
+/// Called before every `db.put`, `db.delete` and `db.write(batch)` in `storage.rs`.
+///
+/// The callback may return, panic (simulated crash) or block (simulated preemption).
+#[inline]
+pub(crate) fn write_point(site: &'static str) {
+    let hook = WRITE_HOOK
+        .lock()
+        .unwrap_or_else(|e| e.into_inner())
+        .clone();
+    if let Some(hook) = hook {
+        hook(site);
+    }
+}
+
+thread_local! {
+    static RNG_STATE: RefCell<Option<u64>> = RefCell::new(None);
+    static RNG_DRAWS: RefCell<u64> = RefCell::new(0);
+}
+
+/// Seeds the sampling RNG of the current thread (`None` restores `thread_rng()`).
+pub(crate) fn set_rng_seed(seed: Option<u64>) {
+    RNG_STATE.with(|s| *s.borrow_mut() = seed);
+}
+
+/// Returns the number of draws since the last call and resets the counter.
+pub(crate) fn take_rng_draws() -> u64 {
+    RNG_DRAWS.with(|d| std::mem::take(&mut *d.borrow_mut()))
+}
+
+pub(crate) struct VerifRng;
+
+pub(crate) fn rng() -> VerifRng {
+    VerifRng
+}
+
+impl RngCore for VerifRng {
+    fn next_u32(&mut self) -> u32 {
+        (self.next_u64() >> 32) as u32
+    }
+
+    fn next_u64(&mut self) -> u64 {
+        RNG_DRAWS.with(|d| *d.borrow_mut() += 1);
+        RNG_STATE.with(|s| {
+            let mut s = s.borrow_mut();
+            match s.as_mut() {
+                // splitmix64
+                Some(state) => {
+                    *state = state.wrapping_add(0x9e37_79b9_7f4a_7c15);
+                    let mut z = *state;
+                    z = (z ^ (z >> 30)).wrapping_mul(0xbf58_476d_1ce4_e5b9);
+                    z = (z ^ (z >> 27)).wrapping_mul(0x94d0_49bb_1331_11eb);
+                    z ^ (z >> 31)
+                }
+                None => rand::thread_rng().next_u64(),
+            }
+        })
+    }
+
+    fn fill_bytes(&mut self, dest: &mut [u8]) {
+        for chunk in dest.chunks_mut(8) {
+            let v = self.next_u64().to_le_bytes();
+            chunk.copy_from_slice(&v[..chunk.len()]);
+        }
+    }
+
+    fn try_fill_bytes(&mut self, dest: &mut [u8]) -> Result<(), rand::Error> {
+        self.fill_bytes(dest);
+        Ok(())
+    }
+}
